@@ -113,7 +113,9 @@ type c16A struct{ a *HookSpec }
 
 func (x c16A) InterceptOperation(ctx context.Context, next graphql.OperationHandler) graphql.ResponseHandler {
 	if msg := x.a.act(graphql.GetOperationContext(ctx)); msg != "" {
-		return graphql.OneShot(&graphql.Response{Errors: gqlerror.List{{Message: msg}}})
+		// the middleware answers by itself: its error is user-built, not produced by the executor, so it is
+		// handed over the way the runner's error presenter marks presented errors (runner.go presentedOut)
+		return graphql.OneShot(&graphql.Response{Errors: gqlerror.List{{Message: msg, Extensions: map[string]any{"presented": true}}}})
 	}
 	return next(ctx)
 }
